@@ -54,3 +54,143 @@ theorem C03_int_scale_up (raw n : Int) : scaleUp (.int raw) (.int n) = .ok (.int
   simp [scaleUp, PyVal.asInt?]
 
 end Ubx
+
+namespace Ubx
+
+/-! ### bit flags: OR-ing in-range values in at their offsets, then slicing, returns the values -/
+
+/-- flags as (width, value), least-significant first -/
+def packW : List (Nat × Nat) → Nat
+  | [] => 0
+  | (w, v) :: rest => v + 2 ^ w * packW rest
+
+/-- what the generate direction computes: `bitfield |= val << bfoffset`, flag after flag -/
+def orIn : Nat → Nat → List (Nat × Nat) → Nat
+  | acc, _, [] => acc
+  | acc, off, (w, v) :: rest => orIn (acc ||| (v <<< off)) (off + w) rest
+
+theorem orIn_pack (fs : List (Nat × Nat)) (h : ∀ f ∈ fs, f.2 < 2 ^ f.1) (acc off : Nat) (hacc : acc < 2 ^ off) :
+    orIn acc off fs = acc + 2 ^ off * packW fs := by
+  induction fs generalizing acc off with
+  | nil => simp [orIn, packW]
+  | cons f rest ih =>
+    obtain ⟨w, v⟩ := f
+    have hv : v < 2 ^ w := h (w, v) (List.mem_cons_self ..)
+    have hr : ∀ f ∈ rest, f.2 < 2 ^ f.1 := fun f hf => h f (List.mem_cons_of_mem _ hf)
+    simp only [orIn, packW]
+    have e1 : acc ||| (v <<< off) = v <<< off + acc := by
+      rw [Nat.or_comm]; exact (Nat.shiftLeft_add_eq_or_of_lt hacc v).symm
+    have hlt : v <<< off + acc < 2 ^ (off + w) := by
+      rw [Nat.shiftLeft_eq, Nat.pow_add]
+      calc v * 2 ^ off + acc < v * 2 ^ off + 2 ^ off := by omega
+        _ = 2 ^ off * (v + 1) := by rw [Nat.mul_add, Nat.mul_one, Nat.mul_comm]
+        _ ≤ 2 ^ off * 2 ^ w := Nat.mul_le_mul_left _ hv
+    rw [e1, ih hr _ _ hlt, Nat.shiftLeft_eq, Nat.pow_add, Nat.mul_add, Nat.mul_assoc]
+    rw [Nat.mul_comm v]; omega
+
+def tyW : Ty → Nat
+  | .t _ n => n
+  | _ => 0
+
+theorem flagWidth_tyW (t : Ty) (a : Nat) (h : flagWidth t = .ok a) : tyW t = a := by
+  unfold flagWidth at h
+  cases t with
+  | ch => simp [attsiz] at h
+  | malformed l => simp [attsiz] at h
+  | t l n =>
+    simp only [attsiz] at h
+    split at h
+    · cases h
+    · cases h; simp [tyW]
+
+/-- the generate-direction flag loop computes `orIn` of the supplied (in-range) values -/
+theorem flagsGen_bitfield (c : WCtx) (idx : List Nat) (flags : List (Name × Ty)) :
+    ∀ (off bf : Nat) (env : Env) (B : Nat) (env' : Env), flagsGen c idx flags off bf env = .ok (B, env') →
+      ∃ vals : List (Nat × Nat), vals.length = flags.length ∧ (∀ f ∈ vals, f.2 < 2 ^ f.1) ∧ B = orIn bf off vals ∧
+        vals.map (·.1) = flags.map (fun f => tyW f.2) := by
+  induction flags with
+  | nil => intro off bf env B env' h; simp only [flagsGen] at h; cases h; exact ⟨[], rfl, by simp, rfl, rfl⟩
+  | cons f rest ih =>
+    intro off bf env B env' h
+    obtain ⟨key, keyt⟩ := f
+    simp only [flagsGen] at h
+    split at h
+    · cases h
+    · rename_i atts hw
+      split at h
+      · cases h
+      · rename_i i hi
+        split at h
+        · cases h
+        · rename_i hrange
+          have hkt : tyW keyt = atts := flagWidth_tyW keyt atts hw
+          have hi0 : 0 ≤ i ∧ i < ((2 ^ atts : Nat) : Int) := by omega
+          have step : ∀ env1, flagsGen c idx rest (off + atts) (bf ||| (i.toNat <<< off)) env1 = .ok (B, env') →
+              ∃ vals : List (Nat × Nat), vals.length = (((key, keyt) :: rest)).length ∧ (∀ f ∈ vals, f.2 < 2 ^ f.1) ∧
+                B = orIn bf off vals ∧
+                vals.map (·.1) = ((key, keyt) :: rest).map (fun f => tyW f.2) := by
+            intro env1 h1
+            obtain ⟨vals, hl, hr, hB, hm⟩ := ih _ _ _ _ _ h1
+            refine ⟨(atts, i.toNat) :: vals, by simp [hl], ?_, ?_, ?_⟩
+            · intro f hf
+              rcases List.mem_cons.mp hf with rfl | hf
+              · simp only; omega
+              · exact hr f hf
+            · simp only [orIn]; exact hB
+            · simp [hm, hkt]
+          split at h
+          · exact step _ h
+          · split at h
+            · cases h
+            · exact step _ h
+
+/-- **flags round trip**: flag values supplied in range are OR-ed into disjoint bit ranges, so slicing the
+    generated bitfield at the same offsets (what the parse direction does) returns exactly the supplied values -/
+theorem C03_flags_roundtrip (fs : List (Nat × Nat)) (h : ∀ f ∈ fs, f.2 < 2 ^ f.1) :
+    orIn 0 0 fs = packW fs ∧
+    ∀ off lo, lo < 2 ^ off → ∀ hi, True →
+      (let B := lo + 2 ^ off * (packW fs + 2 ^ ((fs.map (·.1)).sum) * hi)
+       ∀ k (hk : k < fs.length),
+         (B >>> (off + ((fs.take k).map (·.1)).sum)) &&& (2 ^ (fs[k]).1 - 1) = (fs[k]).2) := by
+  constructor
+  · have := orIn_pack fs h 0 0 (by simp)
+    simpa using this
+  · intro off lo hlo hi _
+    induction fs generalizing off lo with
+    | nil => intro B k hk; simp at hk
+    | cons f rest ih =>
+      obtain ⟨w, v⟩ := f
+      have hv : v < 2 ^ w := h (w, v) (List.mem_cons_self ..)
+      have hr : ∀ f ∈ rest, f.2 < 2 ^ f.1 := fun f hf => h f (List.mem_cons_of_mem _ hf)
+      intro B k hk
+      cases k with
+      | zero =>
+        simp only [List.take_zero, List.map_nil, List.sum_nil, Nat.add_zero, List.getElem_cons_zero]
+        show (B >>> off) &&& (2 ^ w - 1) = v
+        simp only [B, packW, List.map_cons, List.sum_cons]
+        rw [Nat.shiftRight_eq_div_pow, Nat.and_two_pow_sub_one_eq_mod]
+        have hpos : 0 < 2 ^ off := Nat.two_pow_pos off
+        rw [Nat.add_mul_div_left _ _ hpos, Nat.div_eq_of_lt hlo, Nat.zero_add]
+        have : v + 2 ^ w * packW rest + 2 ^ (w + (rest.map (·.1)).sum) * hi
+            = v + 2 ^ w * (packW rest + 2 ^ ((rest.map (·.1)).sum) * hi) := by
+          rw [Nat.pow_add, Nat.mul_add, Nat.mul_assoc]; omega
+        rw [this, Nat.add_mul_mod_self_left, Nat.mod_eq_of_lt hv]
+      | succ k =>
+        have hk' : k < rest.length := by simp at hk; omega
+        have e : B = (lo + 2 ^ off * v) + 2 ^ (off + w) * (packW rest + 2 ^ ((rest.map (·.1)).sum) * hi) := by
+          simp only [B, packW, List.map_cons, List.sum_cons]
+          rw [Nat.pow_add, Nat.pow_add, Nat.mul_add, Nat.mul_add, Nat.mul_add]
+          simp only [Nat.mul_assoc, Nat.add_assoc]
+        have hlo' : lo + 2 ^ off * v < 2 ^ (off + w) := by
+          rw [Nat.pow_add]
+          calc lo + 2 ^ off * v < 2 ^ off + 2 ^ off * v := by omega
+            _ = 2 ^ off * (v + 1) := by rw [Nat.mul_add, Nat.mul_one, Nat.add_comm]
+            _ ≤ 2 ^ off * 2 ^ w := Nat.mul_le_mul_left _ hv
+        have := ih hr (off + w) (lo + 2 ^ off * v) hlo' k hk'
+        simp only [List.take_succ_cons, List.map_cons, List.sum_cons, List.getElem_cons_succ]
+        rw [e]
+        have eo : off + (w + ((rest.take k).map (·.1)).sum) = off + w + ((rest.take k).map (·.1)).sum := by omega
+        rw [eo]
+        exact this
+
+end Ubx
